@@ -69,7 +69,8 @@ CHECKS = {
              'sound item trees and re-invokes children is outside (assume-guarantee per site; histories add nothing to a per-step obligation).',
         note='Trusted: jssym interpreter and value model, the touched predicate and tree well-formedness (node = undefined | true | object with a marked '
              'descendant), helper functions Z / Q.a / Q.b interpreted from the real runtime string.  Bounded program family (22 dependency shapes x site kinds '
-             'x scopes; quick tier samples 3 extra site kinds per expression).',
+             'x scopes; quick tier samples 3 extra site kinds per expression).'
+             " Added: a computed wx:for list / computed template-data field must hand on `true`, never a dependency's sub-tree (decided for all update trees); the node replay includes the splice scenario (items moved: item tree unmarked, index tree true).",
         technique='SMT translation validation of emitted JavaScript in update mode (symbolic update trees), node replay',
         design='§4 C06',
     ),
@@ -81,7 +82,8 @@ CHECKS = {
              '[index], through ?: as ite, dynamic keys as terms); non-assignable expressions (arithmetic, literals, calls, indices, items of non-path lists) '
              'must carry no path.  Equality of key sequences is get-put; a sat verdict is confirmed in node by writing a sentinel at the emitted path.',
         note='Trusted: jssym interpreter, the runtime contract for item paths, prefix conventions (0 = data, 2,<path>,<module> = script). Bounded '
-             'family: chains <= 3, nested loops <= 2, one-level conditionals.',
+             'family: chains <= 3, nested loops <= 2, one-level conditionals.'
+             ' Added: conditional-with-tail families ((c ? a : b).z, nested conditionals, wx:for over (c ? l : m).list); elisions in a path array are wrong segments.',
         technique='SMT translation validation of emitted JavaScript (symbolic path evaluation), node get-put replay',
         design='§4 C11',
     ),
@@ -116,7 +118,8 @@ CHECKS = {
              '(no hole, none missing); and each updater, executed symbolically, performs the same setter call with the same value as the creation code - decided '
              'by z3 for all data.  Kani (shared with C05): the traversal used by collect/disable_binding_map_keys visits every child expression.',
         note='Trusted: jssym interpreter and the template model of checks/c07.py.  Content of component children carrying slot: values is treated as reachable (whether it is '
-             'instantiated more than once is decided by the TypeScript runtime, which cannot run here).',
+             'instantiated more than once is decided by the TypeScript runtime, which cannot run here).'
+             " Added: updaters are executed on fresh data D' and compared with the creation value under D := D' (stale captures from the creation pass); a file with <include> whose included file reads an advertised field must refresh that node.",
         technique='SMT translation validation of emitted JavaScript (updaters vs creation) + Kani harnesses',
         design='§4 C07',
     ),
@@ -126,7 +129,8 @@ CHECKS = {
              'shapes (mixed text, text that decodes to {{, quotes, childless scope-introducing elements, every attribute family), t and print(parse(t)) are both compiled; '
              'the two emitted programs are executed symbolically in creation and update mode and compared site by site: protocol structure exactly, value terms, guards and '
              'paths by z3 for all data / scope values / update trees.  Re-parse diagnostics and the print fixpoint are recorded as supporting data only.',
-        note='Trusted: jssym interpreter; identical structure gives identical fresh scope symbols on both sides.  Scope-name mangling and ill-formed inputs are outside.',
+        note='Trusted: jssym interpreter; identical structure gives identical fresh scope symbols on both sides.  Scope-name mangling and ill-formed inputs are outside.'
+             " Added: literal-receiver family ((1).a, (1.5).a, (7).toFixed(), 's'.length, [a].length, {k:a}.k).",
         technique='SMT translation validation (pairwise comparison of two compilations of the real compiler)',
         design='§4 C14',
     ),
@@ -137,7 +141,8 @@ CHECKS = {
              'lexicographic for all u32 values; engine M executes ParseErrorKind::level with a symbolic kind: every kind has a level and the structural defects the '
              'property names keep at least their documented level.  "Clean input is clean / each injected defect is flagged" needs whole-parser runs and is outside.',
         note='Bound: <= 4 arbitrary UTF-8 bytes per state (skip_bytes: "<newline|a><any scalar>"); unwinding assertions on; cover points; stub core::str::slice_error_fail -> panic. '
-             'Assumes the position fields are written only by the covered primitives (they are private to parse/mod.rs).',
+             'Assumes the position fields are written only by the covered primitives (they are private to parse/mod.rs).'
+             ' Added: M15d - parse_number from MIR over every well-formed decimal literal d{k}[.d{m}], k <= 21 digits: accepted, consumed entirely, no diagnostic (clean input is not flagged, number kernel only).',
         technique='Kani (CBMC) bounded model checking of the compiled primitives + MIR symbolic execution of the level table',
         design='§4 C15',
     ),
@@ -198,7 +203,10 @@ CHECKS = {
              'original token plus its spelling as name) for all forests within the bound; (2) one inductive step of StyleSheetOutput::append_token / '
              'append_token_space_preserved / append_raw from an arbitrary output state with utf16_len == UTF-16 length of the text: the entry column is that '
              'length after the separator and before the token, line 0, source fields passed through, invariant preserved (so entries are ordered).',
-        note=CSS_NOTE + ' Column step: output string abstracted to (utf8, utf16) lengths; to_css appends an arbitrary token text.',
+        note=CSS_NOTE + ' Column step: output string abstracted to (utf8, utf16) lengths; to_css appends an arbitrary token text.'
+             " Added: writer conservation - one call of each token appender from an arbitrary output state writes the token (shared executor target with C19's column step)."
+             ' Added: import paths in url-token and url("string") form (contract expect_url_or_string); the import-position obligation demands a diagnostic only after a rule other than @import.'
+             " Added: the raw text handed to append_raw carries a symbolic class vector (any measure of the argument is decided); the replay oracle also checks the low-priority output's source map (word tokens).",
         technique='symbolic execution of MIR (open environment + one inductive step over an abstract output state) + SMT',
         design='§4 C19',
     ),
@@ -239,7 +247,8 @@ CHECKS = {
              '(d) StrName::parse_next_entity with decode as environment: progress, decode called exactly on the `&`...`;` stretch, accepted references consumed whole, rejected ones kept verbatim and diagnosed.  Longer strings and composition over whole templates are outside.',
         note='Trusted: MIR text; String/Chars/push_str/Range/char::from_u32 contracts; ParseState cursor contracts (assume-guarantee with K16a); the two reference '
              'decoders in checks/c12.py. Digit-table lemmas are proved before they are used. If gen_lit_str cannot be executed by M the check only probes critical '
-             'strings end to end (violation if one differs, otherwise inconclusive).',
+             'strings end to end (violation if one differs, otherwise inconclusive).'
+             ' Probe fallback: if the entity kernels cannot be executed, the reference pool incl. all case-sibling names goes through the real pipeline (a deviation is a replayed violation, otherwise inconclusive).',
         technique='symbolic execution of MIR + SMT (z3) against reference decoders over symbolic characters; end-to-end replay in node',
         design='§4 C12',
     ),
